@@ -1777,11 +1777,24 @@ func main() {
 	out := flag.String("out", "", "directory for Effects.v (the table) and EffectsOk.v (the Example)")
 	jsonOut := flag.String("json", "", "JSON output file")
 	verbose := flag.Bool("v", false, "verbose")
+	full := flag.Bool("full", false, "type-check and build SSA for every dependency from source (slow; see the comment at packages.Load)")
 	whyType := flag.String("why", "", "print how this canonical type gets into each receiver's type structure")
 	flag.Parse()
 
 	cfg := &packages.Config{
-		Mode: packages.LoadAllSyntax,
+		// The analysis never descends into functions outside the module (they are "unanalysed callees"), so the
+		// bodies of dependencies are not needed: by default only the module is loaded from source and the
+		// dependencies come from export data (5x less CPU).  What is lost are the types that only dependency
+		// code converts to interfaces (ssa.Program.RuntimeTypes); this is compensated below, conservatively, by
+		// counting EVERY package-level named type of every loaded package as a possible dynamic type of an
+		// interface.  -full restores the old behaviour.
+		Mode: func() packages.LoadMode {
+			if *full {
+				return packages.LoadAllSyntax
+			}
+
+			return packages.LoadSyntax
+		}(),
 		Dir:  *repo,
 		Env: append(os.Environ(), "GOFLAGS=-mod=mod", "GOPROXY=off", "GOSUMDB=off", "GOTOOLCHAIN=local",
 			"GOWORK=off"),
@@ -1817,7 +1830,13 @@ func main() {
 
 	phase("load")
 
-	prog, _ := ssautil.AllPackages(pkgs, ssa.InstantiateGenerics)
+	var prog *ssa.Program
+	if *full {
+		prog, _ = ssautil.AllPackages(pkgs, ssa.InstantiateGenerics)
+	} else {
+		prog, _ = ssautil.Packages(pkgs, ssa.InstantiateGenerics)
+	}
+
 	prog.Build()
 	phase("ssa")
 
@@ -1870,11 +1889,42 @@ func main() {
 		sort.Slice(l, func(i, j int) bool { return l[i].String() < l[j].String() })
 	}
 
-	for _, t := range prog.RuntimeTypes() {
-		if _, isIface := t.Underlying().(*types.Interface); !isIface {
-			a.runtimeTypes = append(a.runtimeTypes, t)
+	seenRT := map[string]bool{}
+	addRT := func(t types.Type) {
+		if _, isIface := t.Underlying().(*types.Interface); isIface || seenRT[t.String()] {
+			return
 		}
+
+		seenRT[t.String()] = true
+		a.runtimeTypes = append(a.runtimeTypes, t)
 	}
+
+	for _, t := range prog.RuntimeTypes() {
+		addRT(t)
+	}
+
+	// every package-level named, non-generic type (and its pointer) of every loaded package may sit behind an interface
+	packages.Visit(pkgs, nil, func(p *packages.Package) {
+		if p.Types == nil || strings.HasSuffix(p.PkgPath, "/mocks") {
+			return
+		}
+
+		sc := p.Types.Scope()
+		for _, n := range sc.Names() {
+			tn, ok := sc.Lookup(n).(*types.TypeName)
+			if !ok || tn.IsAlias() {
+				continue
+			}
+
+			nt, ok := tn.Type().(*types.Named)
+			if !ok || nt.TypeParams().Len() > 0 {
+				continue
+			}
+
+			addRT(nt)
+			addRT(types.NewPointer(nt))
+		}
+	})
 
 	sort.Slice(a.runtimeTypes, func(i, j int) bool { return a.runtimeTypes[i].String() < a.runtimeTypes[j].String() })
 
@@ -1935,6 +1985,19 @@ func main() {
 				}
 
 				fmt.Printf("WHY %s.%s: %q in set=%v via %s\n", kd.Pkg, n, *whyType, rt.canon[*whyType], rt.whyIn[*whyType])
+			}
+
+			if os.Getenv("EFFECTS_TYPES") == n {
+				var ks []string
+				for k := range rt.canon {
+					ks = append(ks, k)
+				}
+
+				sort.Strings(ks)
+
+				for _, k := range ks {
+					fmt.Println("TYPE", k)
+				}
 			}
 
 			a.rt = rt
